@@ -259,12 +259,25 @@ def _make_class(cid):
         def printer(value, ctx):
             return body(value, ctx)
     printer.__qualname__ = 'printer_C%d' % cid
-    pp.register_pretty(cls)(printer)
+    if cid == 3:
+        # class 3 is printed through a *predicate* printer (no class registration at all)
+        pp.register_pretty(predicate=lambda v, _cls=cls: type(v) is _cls)(printer)
+    else:
+        pp.register_pretty(cls)(printer)
     return cls
 
 
 for _c in range(1, 5):
     CLASSES[_c] = _make_class(_c)
+
+
+def _catch_all(value, ctx):
+    # a predicate printer accepting every instrumented object, registered after all others: it must never be the one that prints
+    # (class printers and earlier predicates win), in particular not as the fallback for a failing printer
+    return 'CATCHALL(%d)' % value.uid
+
+
+pp.register_pretty(predicate=lambda v: isinstance(v, Obj))(_catch_all)
 
 
 def build_tree(spec, wrap_trailing, uid=None):
@@ -302,15 +315,15 @@ def odoc_of_ast(node, nodes):
     return '(unparsed)'
 
 
-def all_trees(n):
-    """all trees with n nodes over 2 classes (one with, one without a trailing_comment parameter)"""
+def all_trees(n, classes=(1, 2)):
+    """all trees with n nodes over the given classes (1: no trailing_comment parameter, 2: with one, 3: registered by predicate)"""
     if n == 1:
-        return [(c, []) for c in (1, 2)]
+        return [(c, []) for c in classes]
     out = []
     from docs import _compositions
     for comp in _compositions(n - 1):
-        for kids in itertools.product(*[all_trees(c) for c in comp]):
-            for c in (1, 2):
+        for kids in itertools.product(*[all_trees(c, classes) for c in comp]):
+            for c in classes:
                 out.append((c, list(kids)))
     return out
 
@@ -442,7 +455,7 @@ def failures_section(tier, seed):
     maxn = 4 if tier == 'quick' else 5
     trees = []
     for n in range(1, maxn + 1):
-        trees.extend(all_trees(n))
+        trees.extend(all_trees(n, (1, 2, 3) if n <= 3 else (1, 2)))
     for t in trees:
         sz = size(t)
         cases.append((t, {}, set()))
